@@ -65,7 +65,7 @@ func (m *memoryStore) GetTokenResponse(ctx context.Context, sessionID string) (*
 	m.mu.Lock()
 	defer m.mu.Unlock()
 
-	s := m.sessions[sessionID]
+	s := m.get(sessionID)
 	if s == nil {
 		return nil, nil
 	}
@@ -92,7 +92,7 @@ func (m *memoryStore) GetAuthorizationState(ctx context.Context, sessionID strin
 	m.mu.Lock()
 	defer m.mu.Unlock()
 
-	s := m.sessions[sessionID]
+	s := m.get(sessionID)
 	if s == nil {
 		return nil, nil
 	}
@@ -109,7 +109,7 @@ func (m *memoryStore) ClearAuthorizationState(ctx context.Context, sessionID str
 	m.mu.Lock()
 	defer m.mu.Unlock()
 
-	if s := m.sessions[sessionID]; s != nil {
+	if s := m.get(sessionID); s != nil {
 		s.accessed = m.clock.Now()
 		s.authorizationState = nil
 	}
@@ -133,27 +133,37 @@ func (m *memoryStore) RemoveAllExpired(ctx context.Context) error {
 	log := m.log.Context(ctx)
 	log.Debug("removing expired sessions")
 
-	var (
-		earliestTimeAddedToKeep    = m.clock.Now().Add(-m.absoluteSessionTimeout)
-		earliestTimeIdleToKeep     = m.clock.Now().Add(-m.idleSessionTimeout)
-		shouldCheckAbsoluteTimeout = m.absoluteSessionTimeout > 0
-		shouldCheckIdleTimeout     = m.idleSessionTimeout > 0
-	)
-
 	m.mu.Lock()
 	defer m.mu.Unlock()
 
+	now := m.clock.Now()
 	for sessionID, s := range m.sessions {
-		expiredBasedOnTimeAdded := shouldCheckAbsoluteTimeout && s.added.Before(earliestTimeAddedToKeep)
-		expiredBasedOnIdleTime := shouldCheckIdleTimeout && s.accessed.Before(earliestTimeIdleToKeep)
-
-		if expiredBasedOnTimeAdded || expiredBasedOnIdleTime {
+		if m.expired(s, now) {
 			log.Debug("removing expired session", "session-id", sessionID)
 			delete(m.sessions, sessionID)
 		}
 	}
 
 	return nil
+}
+
+// expired returns true if the given session is past its absolute or its idle timeout.
+func (m *memoryStore) expired(s *session, now time.Time) bool {
+	expiredBasedOnTimeAdded := m.absoluteSessionTimeout > 0 && s.added.Before(now.Add(-m.absoluteSessionTimeout))
+	expiredBasedOnIdleTime := m.idleSessionTimeout > 0 && s.accessed.Before(now.Add(-m.idleSessionTimeout))
+	return expiredBasedOnTimeAdded || expiredBasedOnIdleTime
+}
+
+// get returns the session with the given id, or nil if there is none or it has expired.
+// Nothing in the service calls RemoveAllExpired periodically, so the timeouts must be enforced when
+// a session is accessed; an expired session is dropped on the spot. The lock must be held.
+func (m *memoryStore) get(sessionID string) *session {
+	s := m.sessions[sessionID]
+	if s != nil && m.expired(s, m.clock.Now()) {
+		delete(m.sessions, sessionID)
+		return nil
+	}
+	return s
 }
 
 // set the given session with the given setter function and record the access time.
@@ -163,7 +173,7 @@ func (m *memoryStore) set(ctx context.Context, sessionID string, setter func(s *
 	m.mu.Lock()
 	defer m.mu.Unlock()
 
-	s := m.sessions[sessionID]
+	s := m.get(sessionID)
 	if s != nil {
 		s.accessed = m.clock.Now()
 		setter(s)
